@@ -36,6 +36,11 @@ def wrapOf : String → Wrap
   | "nestedwrapped" => .nestedWrapped
   | _ => .top
 
+def routeOf : String → ChanRoute
+  | "nested" => .nestedAck
+  | "confirm" => .confirm
+  | _ => .ack
+
 def mkindOf : String → MKind
   | "submitNested" => .submitNested
   | "viaUpdate" => .viaUpdate
@@ -59,7 +64,7 @@ def parseOp (d : DState) (f : List String) : Option Op :=
       ⟨kvN f "h", ⟨kvN f "root", kvN f "ts", kvN f "nv"⟩, actorTok (kv f "ps"), actorTok (kv f "pd"), kvN f "rev", soleOf (kv f "vals") (kv f "pd")⟩ (kv f "ibc" = "1"))
   | "lc_misb" :: c :: _ => some (.misbehaviour (idx! c) (mkindOf (kv f "k")) (kv f "ibc" = "1"))
   | "lc_chaninit" :: c :: _ => some (.chanInit (idx! c))
-  | "lc_chanack" :: ch :: _ => some (.chanAck (nat! (ch.drop 2).toString) (kv f "ibc" = "1"))
+  | "lc_chanack" :: ch :: _ => some (.chanAck (nat! (ch.drop 2).toString) (routeOf (kv f "w")) (kv f "ibc" = "1"))
   | _ =>
     match Driver.Core.parseOp (coreD d) f with
     | none => none
@@ -140,7 +145,7 @@ def txSub (d : DState) (f : List String) : Option Op :=
   | "lc_update" :: _ => parseOp d f
   | "lc_misb" :: _ => parseOp d f
   | "lc_setcanon" :: _ => parseOp d f
-  | "lc_chanack" :: _ => if kv f "ibc" = "0" then parseOp d f else none
+  | "lc_chanack" :: _ => if kv f "ibc" = "0" && (kv f "w" = "" || kv f "w" = "top") then parseOp d f else none
   | _ => none
 
 def parseTx (d : DState) (rest : List String) : Option (List Op) :=
